@@ -232,7 +232,11 @@ func runUtxo(seed uint64, n int, outDir string, replay string) {
 		ans("ok")
 		func() {
 			var db ethdb.Database
-			switch rc.Intn(5) {
+			backendKind := rc.Intn(5)
+			if backendKind > 2 {
+				backendKind = 2
+			}
+			switch backendKind {
 			case 0:
 				db, err = rawdb.NewLevelDBDatabase(fmt.Sprintf("%s/l%d", tmp, c), 16, 16, "", false, log.Global, utLoc)
 			case 1:
@@ -244,6 +248,12 @@ func runUtxo(seed uint64, n int, outDir string, replay string) {
 				panic(err)
 			}
 			defer db.Close()
+			// every disk-backed case has a shadow on the in-memory engine fed the same UTXOs and transactions: the verdict
+			// and the fee of every transaction must be the same on both (the ledger rules do not depend on the engine)
+			var sdb ethdb.Database
+			if backendKind != 2 {
+				sdb = rawdb.NewMemoryDatabase(log.Global)
+			}
 			defer func() {
 				if p := recover(); p != nil {
 					o.Violate("utxo-panic", fmt.Sprintf("panic: %v at %s", p, stackTop()))
@@ -323,14 +333,25 @@ func runUtxo(seed uint64, n int, outDir string, replay string) {
 					lock = big.NewInt(e.lock)
 				}
 				rawdb.CreateUTXO(db, e.hash, e.idx, types.NewUtxoEntry(&types.TxOut{Denomination: e.denom, Address: e.addr, Lock: lock}))
+				if sdb != nil {
+					rawdb.CreateUTXO(sdb, e.hash, e.idx, types.NewUtxoEntry(&types.TxOut{Denomination: e.denom, Address: e.addr, Lock: lock}))
+				}
 				o.Op("utxo h=%s i=%d denom=%d addr=%s lock=%d", h.Hex(e.hash[:]), e.idx, e.denom, h.Hex(e.addr), e.lock)
 				ans("ok")
 				set = append(set, e)
 			}
 			batch := db.NewBatch()
 			batch.SetPending(true)
+			var sbatch ethdb.Batch
+			sgp, sused := new(types.GasPool).AddGas(gasLimit), new(uint64)
+			srl, spl := etxRLimit, etxPLimit
+			if sdb != nil {
+				sbatch = sdb.NewBatch()
+				sbatch.SetPending(true)
+			}
 			signer := types.NewSigner(utChainID, utLoc)
 			spent := map[string]bool{}
+			inBlock := 0 // entries at the end of `set` that this block created
 			// T3 ledger of value
 			ntx := 1 + rc.Intn(6)
 			for t := 0; t < ntx; t++ {
@@ -339,6 +360,12 @@ func runUtxo(seed uint64, n int, outDir string, replay string) {
 				var ins []utEntry
 				for j := 0; j < nin && len(set) > 0; j++ {
 					e := set[rc.Intn(len(set))]
+					if inBlock > 0 && rc.Chance(45) {
+						// an output created earlier in this very block (it exists in the block's pending batch only) - any
+						// of them, not only the newest
+						e = set[len(set)-1-rc.Intn(inBlock)]
+						o.Count("input-created-in-this-block")
+					}
 					if rc.Chance(85) && (spent[fmt.Sprintf("%x:%d", e.hash, e.idx)] || e.owner < 0 || e.lock > height) {
 						continue // mostly pick spendable ones
 					}
@@ -436,6 +463,10 @@ func runUtxo(seed uint64, n int, outDir string, replay string) {
 							}
 						default:
 							addr = freshAddr(0x00, true)
+							if rc.Chance(45) {
+								// change back to one of the wallet's own keys: spendable by a later transaction of this block
+								addr = keys[rc.Intn(len(keys))].addr.Bytes()
+							}
 						}
 						var lock *big.Int
 						if adversarial == 12 {
@@ -575,7 +606,31 @@ func runUtxo(seed uint64, n int, outDir string, replay string) {
 				added, removed := new(big.Int), new(big.Int)
 				// run on a scratch copy of the accumulators first: a rejected tx must leave the block's accumulators usable
 				gpc, ugc, rlc, plc := *gp, *usedGas, etxRLimit, etxPLimit
+				shadow := ""
+				if sdb != nil {
+					sg, su, sr, sp := *sgp, *sused, srl, spl
+					sfee, setxs, _, serr, _ := core.ProcessQiTx(tx, chain, checkSig, isFirst, header, sbatch, sdb, sgp, sused, signer, utLoc, *utChainID, scaling, &srl, &spl, new(core.UtxosCreatedDeleted), new(big.Int), new(big.Int), false)
+					if serr != nil {
+						*sgp, *sused, srl, spl = sg, su, sr, sp
+						sbatch.Reset()
+						shadow = "err " + utErrClass(serr)
+					} else {
+						shadow = fmt.Sprintf("ok fee=%s etxs=%d", sfee, len(setxs))
+					}
+				}
 				fee, etxs, _, perr, _ := core.ProcessQiTx(tx, chain, checkSig, isFirst, header, batch, db, gp, usedGas, signer, utLoc, *utChainID, scaling, &etxRLimit, &etxPLimit, ucd, added, removed, false)
+				if sdb != nil {
+					primary := ""
+					if perr != nil {
+						primary = "err " + utErrClass(perr)
+					} else {
+						primary = fmt.Sprintf("ok fee=%s etxs=%d", fee, len(etxs))
+					}
+					o.Count("engine-shadowed-tx")
+					if primary != shadow {
+						o.Violate("c01-storage-engines-disagree", fmt.Sprintf("the same Qi transaction on the same ledger: `%s` on %s, `%s` on the in-memory engine", primary, []string{"leveldb", "pebble", "memory"}[backendKind], shadow))
+					}
+				}
 				if perr != nil {
 					ans("err " + utErrClass(perr))
 					// a rejected tx invalidates the block in the real node: stop this block here (the batch holds partial effects)
@@ -670,6 +725,7 @@ func runUtxo(seed uint64, n int, outDir string, replay string) {
 					for ki, k := range keys {
 						if bytes.Equal(k.addr.Bytes(), out.Address) {
 							set = append(set, utEntry{hash: th, idx: uint16(i), denom: out.Denomination, addr: out.Address, owner: ki})
+							inBlock++
 						}
 					}
 				}
